@@ -18,6 +18,7 @@ import RtenVerif.Lemmas.FastBroadcastIdx
 import RtenVerif.Lemmas.LayoutSeq
 import RtenVerif.Lemmas.InPlace
 import RtenVerif.Lemmas.BinaryDispatch
+import RtenVerif.Lemmas.ReduceDispatch
 import RtenVerif.Props.C09
 
 namespace RtenVerif.FastBroadcast
@@ -402,5 +403,65 @@ example :
       some [[0, 1, 2, 3, 4, 5], [0, 3, 1, 4, 2, 5]] ∧
     (transformInputsRunAll [⟨2, none⟩] (liftOp (fun as => as.map (·.data))) [t, t]).toOption = none := by
   decide
+
+section Reduce
+open RtenVerif.Iter (rowMajor rowMajor_nil)
+
+/-- **C14 D4.** For reductions over the innermost axes, `reduce`'s paths — rank-0 item, empty
+input, contiguous chunks fast path, general path — all compute the kernel of each inner slice read
+in row-major order, one per outer index in row-major order: the result does not depend on which
+path the layout selects. -/
+theorem c14_reduce_inner_paths_agree {α β : Type} (kernel : List α → β) (O I : Dims) (base : Nat)
+    (s : Nat → α) : reduceInnerOp kernel O I base s = reduceSlices kernel O I base s := by
+  unfold reduceInnerOp
+  simp only
+  split
+  · rename_i h0
+    have hO : O = [] := by cases O with
+      | nil => rfl
+      | cons _ _ => simp at h0
+    have hI : I = [] := by cases I with
+      | nil => rfl
+      | cons _ _ => subst hO; simp at h0
+    subst hO hI
+    simp [reduceSlices, rowMajor_nil]
+  · split
+    · rename_i _ hn
+      rw [numel_sizes_append] at hn
+      unfold reduceSlices
+      rcases Nat.mul_eq_zero.mp hn with hO | hI
+      · have : rowMajor O = [] := List.eq_nil_of_length_eq_zero (by rw [rowMajor_len, hO])
+        rw [this, hO]; rfl
+      · have : rowMajor I = [] := List.eq_nil_of_length_eq_zero (by rw [rowMajor_len, hI])
+        rw [this]
+        simp only [List.map_nil]
+        rw [← rowMajor_len O, List.map_const']
+    · split
+      · rename_i _ hn hc
+        have hrm := rowMajor_of_isContiguous _ hc
+        have hIpos : 0 < RtenVerif.Arr.numel (sizes I) := by
+          rw [numel_sizes_append] at hn
+          exact Nat.pos_of_ne_zero (fun h => hn (by rw [h, Nat.mul_zero]))
+        have hdata : (List.range (RtenVerif.Arr.numel (sizes (O ++ I)))).map (fun i => s (base + i)) =
+            (rowMajor O).flatMap (fun o => (rowMajor I).map (fun i => s (base + (o + i)))) := by
+          rw [← hrm, rowMajor_append, List.map_flatMap]
+          apply RtenVerif.FastBroadcast.flatMap_congr'
+          intro o _
+          rw [List.map_map]; rfl
+        rw [hdata, chunks_blocks _ hIpos _ _ _ (by intro x _; simp [rowMajor_len])
+          (by rw [rowMajor_len, numel_sizes_append]; exact Nat.le_refl _)]
+        unfold reduceSlices
+        rw [List.map_map]; rfl
+      · rfl
+
+
+/-- contiguous 2×3 (fast path) and its transposed-storage twin (general path): same row sums;
+empty inner axis: the kernel's identity per outer index. -/
+example :
+    reduceInnerOp List.sum [(2, 3)] [(3, 1)] 0 (fun i => i) = [3, 12] ∧
+    reduceInnerOp List.sum [(2, 1)] [(3, 2)] 0 (fun i => [0, 3, 1, 4, 2, 5].getD i 0) = [3, 12] ∧
+    reduceInnerOp List.sum [(2, 0)] [(0, 1)] 0 (fun i => i) = [0, 0] := by decide
+
+end Reduce
 
 end RtenVerif.Layout
